@@ -121,3 +121,35 @@ void h_add(void) { SPLIT(body_add); CANARY_POINT(); }
 void h_sweep(void) { SPLIT(body_sweep); CANARY_POINT(); }
 void h_find(void) { SPLIT(body_find); CANARY_POINT(); }
 void h_withdraw(void) { SPLIT(body_withdraw); CANARY_POINT(); }
+
+/* the 20-provider cap: from a list that is exactly full (CAPN providers, distinct ids, arbitrary deadlines) one more announcement by a new
+   peer leaves CAPN providers, and every provider that was dropped expires no later than every provider that was kept */
+#ifdef CAPN
+void h_cap(void)
+{
+  static KademliaTable tab_obj; static PeerContact st[CAPN + 2];
+  { KademliaTable any_tab; tab_obj = any_tab; }
+  for (int i = 0; i < CAPN + 2; ++i) { PeerContact any_c; st[i] = any_c; for (int k = 1; k < 32; ++k) st[i].id._[k] = 0; }
+  tab = &tab_obj;
+  { map_str_ChunkLocator_ent z = {0}; tab_obj.table_.e[1] = z; }
+  tab_obj.table_.n = 1; tab_obj.shard_table_.n = 0;
+  tab_obj.table_.e[0].second.holders.p = st; tab_obj.table_.e[0].second.holders.n = CAPN; tab_obj.table_.e[0].second.holders.cap = CAPN + 2;
+  for (int i = 0; i < CAPN; ++i) { __CPROVER_assume(st[i].id._[0] == i + 1 && st[i].expires_at >= 0 && st[i].expires_at <= 4000000000000000000l); old[i % (H + 1)] = st[i]; }
+  __CPROVER_assume(t_now >= 0 && t_now <= 4000000000000000000l);
+  __g_clock_steady = t_now; __g_clock_fixed = 1;
+  static PeerContact before[CAPN + 1];
+  for (int i = 0; i < CAPN; ++i) before[i] = st[i];
+  arr_u8_32 in_chunk; PeerContact in_c; int64_t in_ttl; __CPROVER_assume(in_ttl >= 0 && in_ttl <= 1000000000l);
+  for (int k = 1; k < 32; ++k) in_c.id._[k] = 0;
+  in_c.id._[0] = 200;                                     /* a peer that is not listed yet */
+  KademliaTable__add_contact(tab, &in_chunk, in_c, in_ttl);
+  vec_PeerContact *h = &tab->table_.e[0].second.holders;
+  __CPROVER_assert(tab->table_.n == 1 && h->n == CAPN, "the provider list never grows beyond the cap");
+  /* the smallest deadline among the kept ones is not smaller than the deadline of any provider that is gone */
+  uint64_t g; __CPROVER_assume(g < CAPN);
+  _Bool kept = 0; for (uint64_t j = 0; j < CAPN; ++j) if (h->p[j].id._[0] == before[g].id._[0]) kept = 1;
+  uint64_t k2; __CPROVER_assume(k2 < CAPN);
+  if (!kept) __CPROVER_assert(h->p[k2].expires_at >= before[g].expires_at, "a provider is dropped at the cap only if every provider that is kept expires at least as late");
+  CANARY_POINT();
+}
+#endif
